@@ -113,9 +113,59 @@ def oracle_style(req, out):
                         want = {b"-"} if not seps else set(seps)
                     if sep not in want:
                         return "step %d (%s): new record dated with separator %r, expected %r" % (i, step[5], sep, sorted(want))
+        # clock convention, dash spacing and placeholder length of a generated open range (start, and switch's new entry)
+        if st == "ok" and step[5] in ("start", "switch") and prev_parsed is not None:
+            facts = record_facts(prev_parsed)
+            date, _ = resolve_date(step)
+            recs = canon_records(prev_parsed) or []
+            j = find_record(recs, date)
+            a, b = text_lines(before), text_lines(after)
+            new_lines = [t for t, _ in b if (t, _) not in a]
+            opens = [re.match(rb"[ \t]+(<?\d{1,2}:\d{2}(am|pm)?>?)( *)-( *)(\?+)", t) for t in new_lines]
+            opens = [m for m in opens if m]
+            if opens:
+                m = opens[-1]
+                own = facts[j] if (j is not None and j < len(facts)) else (None, None, None)
+                if step[5] == "switch" and j is not None:
+                    # after closing, the record's own facts come from the entry that was just closed
+                    pass
+                others = facts
+                if step[7] == "_":          # the time was generated
+                    if cfg[3] != "_":
+                        want24 = {cfg[3] == "1"}
+                    else:
+                        want24 = expected(own[0], [f[0] for f in others], True)
+                    if (m.group(2) is None) not in want24:
+                        return "step %d (%s): generated time %r does not follow the clock convention %r" % (i, step[5], m.group(1), sorted(want24))
+                if step[5] == "start":
+                    want_sp = expected(own[1], [f[1] for f in others], True)
+                    if (len(m.group(3)) > 0) not in want_sp:
+                        return "step %d (start): spacing around the dash in %r, expected spaces=%r" % (i, m.group(0), sorted(want_sp))
+                    want_q = expected(own[2], [f[2] for f in others], 0)
+                    if (len(m.group(5)) - 1) not in want_q:
+                        return "step %d (start): placeholder %r, expected %r additional characters" % (i, m.group(5), sorted(want_q))
         before = after
         prev_parsed = parsed if valid else None
     return None
+
+def record_facts(parsed):
+    """per record: (24h clock of its last range/open range or None, spaces around dash or None, extra placeholder chars or None)"""
+    toks = parsed.split(" ")
+    out = []
+    if toks[0] != "ok": return out
+    i = 2
+    while i < len(toks):
+        n = int(toks[i + 4])
+        c24 = sp = ex = None
+        for e in toks[i + 5:i + 5 + n]:
+            f = e.split(":")
+            if f[0] == "G":
+                c24 = f[1].split(".")[3] == "1"; sp = f[3] == "1"
+            elif f[0] == "O":
+                c24 = f[1].split(".")[3] == "1"; sp = f[2] == "1"; ex = int(f[3])
+        out.append((c24, sp, ex))
+        i += 5 + n
+    return out
 
 def suites():
     return [
